@@ -295,7 +295,7 @@ fn len_class(n: usize) -> &'static str {
 fn class_of(prefix: &str, g: Option<&DataGen>, ans: &str) -> String {
     let res = if ans.starts_with("ERR:") || ans == "PANIC" { ans.to_string() } else { "ok".to_string() };
     match g {
-        Some(g) => format!("{}/{}/{}/{}", prefix, ["none", "mac", "app"][g.kind as usize], len_class(g.pld_len), res),
+        Some(g) => format!("{}/{}/{}/{}", prefix, ["none", "mac", "app"][g.kind as usize], len_class(if g.kind == 0 { 0 } else { g.pld_len }), res),
         None => format!("{}/{}", prefix, res),
     }
 }
